@@ -194,7 +194,7 @@ namespace occa {
                         const dim_t count,
                         const dim_t offset,
                         const occa::json &props) {
-    if (!isInitialized()) return;
+    assertInitialized();
 
     const int dtypeSize = modeMemory->dtype_->bytes();
     const dim_t bytes  = dtypeSize * ((count == -1) ? length() : count);
@@ -218,7 +218,6 @@ namespace occa {
                         const dim_t destOffset,
                         const dim_t srcOffset,
                         const occa::json &props) {
-   if (!isInitialized() && !src.isInitialized()) return;
     assertInitialized();
     src.assertInitialized();
 
@@ -251,7 +250,7 @@ namespace occa {
                       const dim_t count,
                       const dim_t offset,
                       const occa::json &props) const {
-    if (!isInitialized()) return;
+    assertInitialized();
 
     const int dtypeSize = modeMemory->dtype_->bytes();
     const dim_t bytes  = dtypeSize * ((count == -1) ? length() : count);
@@ -275,7 +274,6 @@ namespace occa {
                       const dim_t destOffset,
                       const dim_t srcOffset,
                       const occa::json &props) const {
-    if (!isInitialized() && !dest.isInitialized()) return;
     assertInitialized();
     dest.assertInitialized();
 
